@@ -289,6 +289,35 @@ pub fn enumerate(max_len: usize, all_kinds: bool, float_planners: bool, rng: &mu
             }
         }
     }
+    // planner-produced transforms of *any* length as inner transforms (the README idiom MixedRadix::new(planner.plan(30), planner.plan(40))):
+    // every unary constructor over planned(m), and binary constructors pairing planned(m) with a small leaf
+    {
+        let mut ms: Vec<usize> = (33..=if all_kinds { 1100 } else { 600 }).filter(|m| is_prime(m + 1)).collect();
+        ms.extend_from_slice(&[36, 48, 60, 64, 100, 128, 166, 192, 243, 256, 384, 512, 1024]);
+        if all_kinds {
+            ms.extend((33..=200).filter(|m| !is_prime(m + 1)));
+        }
+        ms.sort();
+        ms.dedup();
+        for (i, m) in ms.iter().copied().enumerate() {
+            let pk = if float_planners { ALL_PK[i % 4] } else { [PK::Auto, PK::Scalar][i % 2] };
+            let leaf = Node::Planned(pk, m);
+            let mut tmp = vec![];
+            unary_over(&leaf, max_len.max(2 * m), &mut tmp);
+            let small = 2 + i % 9;
+            for lb in leaves_for(small) {
+                binary_over(&leaf, &lb, max_len.max(small * m), &mut tmp);
+                binary_over(&lb, &leaf, max_len.max(small * m), &mut tmp);
+            }
+            // keep the Rader / Bluestein / radix wrappers always, subsample the rest when not enumerating everything
+            for t in tmp {
+                let keep = all_kinds || matches!(t, Node::Rader(_)) || rng.chance(0.25);
+                if keep && t.len() <= 8192 {
+                    depth1.push(t);
+                }
+            }
+        }
+    }
     let mut out = depth1.clone();
     // depth 2: every unary constructor over a depth-1 tree, and binary constructors pairing a depth-1 tree with a leaf
     let mut depth2: Vec<Node> = vec![];
@@ -432,7 +461,7 @@ fn check_exact(st: &mut Stats, tree: &Node, seed: u64, basis_max: usize) {
     st.inc("trees_checked_exactly");
 }
 
-fn check_float<T: Elem>(st: &mut Stats, tree: &Node, seed: u64, thorough: bool) {
+fn check_float<T: Elem>(st: &mut Stats, tree: &Node, seed: u64, thorough: bool, light: bool) {
     let n = tree.len();
     for dir in DIRS {
         let fft = match build::<T>(tree, dir) {
@@ -478,9 +507,11 @@ fn check_float<T: Elem>(st: &mut Stats, tree: &Node, seed: u64, thorough: bool) 
             }
         }
         // C03 / C07 / C08 / C09 machinery on guard-paged buffers
-        crate::shape::c07_fft(st, "C12", &base, &fft, n, &mut rng, false);
-        crate::shape::c08_fft(st, "C12", &base, &fft, n, &mut rng, false);
-        crate::shape::c09_fft(st, "C12", &base, &fft, n, &mut rng, thorough);
+        if !light {
+            crate::shape::c07_fft(st, "C12", &base, &fft, n, &mut rng, false);
+            crate::shape::c08_fft(st, "C12", &base, &fft, n, &mut rng, false);
+            crate::shape::c09_fft(st, "C12", &base, &fft, n, &mut rng, thorough);
+        }
         crate::shape::c03_fft(st, "C12", &base, &fft, n, &mut rng, false, true);
     }
     st.inc("trees_checked_in_floats");
@@ -528,12 +559,12 @@ pub fn run(args: &Args) {
         st.set_distinct(&tree.describe());
         // planner-produced SSE/AVX leaves exist only for f32/f64; the exact check maps them to the portable planner
         let exact_tree = map_float_leaves(tree);
-        if !args.flag("no-exact") {
+        if !args.flag("no-exact") && !light {
             check_exact(&mut st, &exact_tree, args.seed, if t { 128 } else { 64 });
         }
         if i % float_every == 0 {
-            check_float::<f64>(&mut st, tree, args.seed, t);
-            check_float::<f32>(&mut st, tree, args.seed, t);
+            check_float::<f64>(&mut st, tree, args.seed, t, light);
+            check_float::<f32>(&mut st, tree, args.seed, t, light);
         }
         if tree.depth() >= 2 {
             st.sample(3, || J::obj(vec![("tree", J::s(&tree.describe())), ("len", J::u(tree.len()))]));
